@@ -10,6 +10,6 @@ git apply "$PATCH" || { echo "patch does not apply to /repo"; exit 2; }
 cd /verif
 for T in $TIERS; do
   echo "== ./check $PROP $T (VERIF_SEED=${VERIF_SEED:-1})"
-  timeout 6000 ./check $PROP $T 2>&1 | grep -v "^built" | tail -${TAILN:-14}
+  VERIF_NO_REGRESS=1 timeout 6000 ./check $PROP $T 2>&1 | grep -a -v "^built" | tail -${TAILN:-14}
 done
 git -C /repo checkout -- . && echo "== /repo reverted: $(git -C /repo status --porcelain | wc -l) changes left"
